@@ -63,7 +63,7 @@ PROPS = {
         level_note="Trusted: harness/ref. Negative last tokens while negative indices are off, '-'/non-numeric tokens on arrays and remove of \"\" are outside the stated domain and excluded (counted).",
     ),
     "C14": dict(
-        pkg="c14", units=[rapid("TestProp", 45000, 200000), fuzz("FuzzEnsure", 60)], assumptions=COMMON_ASSUME,
+        pkg="c14", units=[rapid("TestProp", 45000, 200000), rapid("TestPropSeq", 30000, 150000), fuzz("FuzzEnsure", 60)], assumptions=COMMON_ASSUME,
         technique="property-based testing (rapid): generated extension paths vs a reference ensure+add model, ordered comparison, independent pointer lookup, agreement with plain add; coverage-guided native fuzzing of the same oracle over raw bytes in the thorough tier",
         level_text="Generated-input search: an existing container path is extended by generated tokens (escaped names, indices, '-'); the output must equal the reference ensure+add result including member order (frame condition and 'nothing but path and padding' in one comparison), the value must be found at the path by an independent lookup, and the result must equal plain add's whenever plain add succeeds. Judged only in the property's clear domain. Exploration only.",
         level_note="Trusted: harness/ref ensure model. Excluded and counted: null/scalar on the path, names addressed into arrays, last index beyond an existing array, negative and non-canonical indices, '-' before the last token.",
